@@ -45,6 +45,8 @@ def run(rep, tier):
         powers(rep, c, sfx)
         levels(rep, c, sfx)
         climb(rep, c, sfx)
+        lookup(rep, c, sfx)
+        opentry(rep, c, sfx)
 
 
 # ------------------------------------------------------------------ symbolic binding power
@@ -377,3 +379,64 @@ def climb(rep, c, sfx):
     if not ok_inner:
         r.violation("rec:inner-test", where(call), "inner test is not `new_prec > prec || assoc == Right && new_prec "
                     "== prec` (%s)" % texts)
+
+
+def lookup(rep, c, sfx):
+    r = rep.rule("C13.LOOKUP" + sfx, 2,
+                 "operator lookup finds every registered operator: a linear scan, or a binary search over a table that "
+                 "every constructor sorts in the compared order")
+    for ty in ("pest::prec_climber::PrecClimber", "pest::pratt_parser::PrattParser", "pest::pratt_parser::ConstPrattParser"):
+        gets = [b for b in c.bodies if b.get("impl_self") == ty and b["name"] == "get" and not b.get("impl_trait")]
+        if not gets:
+            continue
+        g = gets[0]
+        bs = [x for x in walk(g["body"]) if kind(x) == "MethodCall" and x["m"].startswith("binary_search")]
+        r.instance("get:" + ty.split("::")[-1], where(g["body"]), "binary search" if bs else "scan / map lookup")
+        if not bs:
+            continue
+        ctors = [b for b in c.bodies if b.get("impl_self") == ty and b["dk"] == "AssocFn"
+                 and any(kind(x) == "Struct" and x.get("ty", "").startswith(ty) for x in walk(b["body"]))]
+        for k in ctors:
+            sorts = any(kind(x) == "MethodCall" and x["m"].startswith("sort") for x in walk(k["body"]))
+            r.instance("ctor:%s::%s" % (ty.split("::")[-1], k["name"]), where(k["body"]), "sorts: %s" % sorts)
+            if not sorts:
+                r.violation("ctor:%s::%s" % (ty.split("::")[-1], k["name"]), where(k["body"]),
+                            "%s::get binary-searches the operator table, but the constructor %s stores the table as "
+                            "given: operators of an unsorted table are not found and the expression is silently "
+                            "truncated at them" % (ty.split("::")[-1], k["name"]))
+
+
+def opentry(rep, c, sfx):
+    r = rep.rule("C13.OPENTRY" + sfx, 1,
+                 "PrattParser::op registers each operator of a `|` chain under its own rule with its own affix (key and "
+                 "affix come from the same Op value)")
+    op = c.fn("pest::pratt_parser::PrattParser::op")
+    if op is None:
+        r.lost("PrattParser::op")
+        return
+    ins = [x for x in walk(op["body"]) if kind(x) == "MethodCall" and x["m"] == "insert"]
+    if not ins:
+        r.lost("insert into the operator map")
+        return
+    for x in ins:
+        keyx = peel(x["args"][0])
+        val = peel(x["args"][1])
+        aff = peel(val["elems"][0]) if kind(val) == "Tup" and val["elems"] else None
+        def origin(e):
+            e = peel(e)
+            if kind(e) == "Field":
+                return ("field-of", hirq.local_id(e["base"]) if hirq.local_id(e["base"]) is not None else hirq.expr_text(e["base"]))
+            if kind(e) == "Path" and e.get("res") == "local":
+                # a pattern binding: find the struct pattern it belongs to
+                for p in walk(op["body"]):
+                    if p.get("k") == "PStruct" and any(b[0] == e["id"] for f in p["fields"] for b in hirq.pat_bindings(f["pat"])):
+                        return ("pattern", p.get("sp"))
+                return ("local", e["id"])
+            return ("?", hirq.expr_text(e))
+        ko, ao = origin(keyx), origin(aff) if aff is not None else None
+        r.instance("insert", where(x), "key from %s, affix from %s" % (ko, ao))
+        if ao is None or ko != ao:
+            r.violation("insert", where(x),
+                        "the operator is registered under `%s` with the affix `%s` taken from a different Op value: in a "
+                        "chain `a | b` every operator gets the first one's affix/associativity"
+                        % (hirq.expr_text(keyx), hirq.expr_text(aff) if aff is not None else "?"))
